@@ -18,7 +18,7 @@ func TestC03(t *testing.T) {
 	defer st.Flush()
 	rapid.Check(t, func(t *rapid.T) {
 		rapid.SyncTest(t, func(t *rapid.T) {
-			opts := scenarioOpts{maxSteps: 30, tooLong: true}
+			opts := scenarioOpts{maxSteps: 30, tooLong: true, unknownChannels: true}
 			sc := genWorld(t, opts)
 			w := sc.w
 			initial := w.store.clone()
@@ -51,6 +51,11 @@ func TestC03(t *testing.T) {
 				for j := 0; j < 6 && len(afterStore) > 0; j++ {
 					points = append(points, afterStore[rapid.IntRange(0, len(afterStore)-1).Draw(t, "crashAfterStore")])
 				}
+			}
+			// the quiescent point right after the client first heard of a channel it
+			// did not know (its worker may still be waiting for the first difference)
+			for _, at := range w.learnedAt {
+				points = append(points, at)
 			}
 			nontrivialPoints := 0
 			for _, k := range points {
@@ -89,7 +94,7 @@ func TestC03(t *testing.T) {
 				for tag := range w2.inDiffAt(-1) {
 					inDiff[tag] = true
 				}
-				if miss := w.missingFrom(d1, tl1, inDiff); len(miss) > 0 {
+				if miss := w.missingFromAt(k, d1, tl1, inDiff); len(miss) > 0 {
 					t.Fatalf("C03 violated (crash+restart): crash at trace index %d (persisted pts=%d qts=%d channels=%v), after restart and recovery %v never reached the handler in either run\nsteps: %s\ntrace1: %s\ntrace2: %s",
 						k, persisted.state.Pts, persisted.state.Qts, persisted.channels, miss, sc.key(), w.traceString(0), w2.traceString(0))
 				}
